@@ -9,6 +9,7 @@ def _p():
     return props
 
 SUITE_P = {"toy": dict(SECPARAM=192, ln=384, lm=256, le=258, ls=896),
+           "toy2": dict(SECPARAM=192, ln=448, lm=256, le=258, ls=960),
            "cl1024": dict(SECPARAM=512, ln=1024, lm=256, le=258, ls=1536),
            "cl2048": dict(SECPARAM=1024, ln=2048, lm=256, le=258, ls=2560),
            "cl3072": dict(SECPARAM=1536, ln=3072, lm=256, le=258, ls=3584)}
